@@ -193,6 +193,14 @@ example : ((prePeerLimit ⟨.none, .none, .diff, false⟩).nodes[2]?.map (fun n 
     not called and both are STILL verified at each other after the time-outs have been processed -/
 theorem verified_peer_survives_probe_timeout_partial (c : Cfg) : strategyOk c = true := of_all tableO c
 
+/-- LANs numbered outside RFC 1918 (carrier-grade NAT 100.64/10 or other address space behind a NAT; same box or two
+    boxes): the introducer hands out the introduced peer's LAN address as it learned it — whatever range it is in — and the
+    script succeeds; behind one box the pair connects over that LAN address only -/
+theorem intro_reaches_on_non_rfc1918_lan_partial (c : Cfg) (h : c.pl = .same ∨ c.pl = .diff) : cgnOk c = true :=
+  List.all_eq_true.mp tableP c (by
+    simp only [cgnCfgs, List.mem_filter, mem_allCfgs, true_and, Bool.or_eq_true, beq_iff_eq]; exact h)
+example : inLanSubnets (cgnP ⟨.none, .none, .same, false⟩).lan.ip = false := by decide
+
 /-! ## reachable states outside the tables in which the unchanged code FAILS (known findings, witnesses) — not exhaustive -/
 
 /-- KNOWN FINDING (a), negation of the full statement: R and P behind one box (both port-restricted, old style, the
